@@ -22,6 +22,7 @@ import (
 	"errors"
 	"strings"
 	"sync"
+	"sync/atomic"
 	"syscall"
 	"time"
 )
@@ -41,6 +42,7 @@ type server struct {
 	opts        *options
 	onQuit      func(err error)
 	connections sync.Map // key=fd, value=connection
+	closing     int32    // set by Close before it sweeps the connections
 }
 
 // Run this server.
@@ -60,6 +62,9 @@ func (s *server) Run() (err error) {
 
 // Close this server with deadline.
 func (s *server) Close(ctx context.Context) error {
+	// an accept that is already past Accept() stores its connection after the sweep below may have
+	// finished: it re-checks this flag after storing and closes the connection itself.
+	atomic.StoreInt32(&s.closing, 1)
 	s.operator.Control(PollDetach)
 	s.ln.Close()
 
@@ -176,7 +181,8 @@ func (s *server) onAccept(conn Conn) {
 	// double check: the connection is already registered, so another poller may have closed it
 	// and run its close callbacks before the untrack callback above was added; that callback
 	// would then never fire and the closed connection would stay tracked for ever.
-	if !nconn.IsActive() {
+	// ... and the server may have been shut down: its sweep may have run before the Store above.
+	if !nconn.IsActive() || atomic.LoadInt32(&s.closing) != 0 {
 		nconn.Close()
 		s.connections.Delete(fd)
 	}
